@@ -335,6 +335,29 @@ func (in *Interp) zero(t types.Type) Value {
 }
 
 // copyVal returns a copy of v with value semantics for aggregates.
+// storeInto assigns v to the variable at p the way memory does: aggregate values are written element by element
+// into the existing storage, so pointers to fields / elements taken before the store stay valid (go/ssa emits
+// "t = &p.f; *p = T{}; *t = x" for "*p = T{f: x}").
+func storeInto(p *Value, v Value) {
+	switch sv := v.(type) {
+	case Struct:
+		if dv, ok := (*p).(Struct); ok && len(dv) == len(sv) {
+			for i := range sv {
+				storeInto(&dv[i], sv[i])
+			}
+			return
+		}
+	case Array:
+		if dv, ok := (*p).(Array); ok && len(dv) == len(sv) {
+			for i := range sv {
+				storeInto(&dv[i], sv[i])
+			}
+			return
+		}
+	}
+	*p = v
+}
+
 func copyVal(v Value) Value {
 	switch v := v.(type) {
 	case Struct:
